@@ -499,6 +499,14 @@ func c20StackSchema(st c20Stack) (string, error) {
 			"no_trim":            true,
 			"keep_empty_or_null": true,
 		}
+		if f.Wrap {
+			anchor := f.XPath
+			if anchor == "" {
+				anchor = "."
+			}
+			fields[f.Name] = map[string]interface{}{"xpath": anchor, "object": map[string]interface{}{"v": d}, "keep_empty_or_null": true}
+			continue
+		}
 		if f.XPath != "" {
 			d["xpath"] = f.XPath
 		}
@@ -520,6 +528,13 @@ func c20Anchor(rec *idr.Node, xp string) *idr.Node {
 			return nil
 		}
 		return rec.Parent.Parent
+	case "c0":
+		for k := rec.FirstChild; k != nil; k = k.NextSibling {
+			if k.Type == idr.ElementNode && k.Data == "c0" {
+				return k
+			}
+		}
+		return nil
 	}
 	panic("unknown anchor " + xp)
 }
@@ -571,7 +586,7 @@ func c20CheckStack(c c20Case) obs.Result {
 			changed bool
 		}
 		anchors := map[string]anchorInfo{}
-		for _, xp := range []string{".", "..", "../.."} {
+		for _, xp := range []string{".", "..", "../..", "c0"} {
 			n := c20Anchor(rec, xp)
 			if n == nil {
 				continue
@@ -591,6 +606,14 @@ func c20CheckStack(c c20Case) obs.Result {
 			}
 			ai, hasAnchor := anchors[xp]
 			g, present := got[f.Name]
+			if f.Wrap && hasAnchor {
+				// {"v": value}
+				var w map[string]json.RawMessage
+				if !present || json.Unmarshal(g, &w) != nil || w == nil {
+					return obs.Violationf("record %d field %s (%+v): want an object {\"v\": ...} evaluated at %q, got %s\nschema %s\ninput %q", ri, f.Name, f, xp, g, schema, in)
+				}
+				g, present = w["v"]
+			}
 			if !hasAnchor {
 				// the anchor does not exist: the transform yields nothing, kept as null
 				if present && string(g) != "null" {
